@@ -112,6 +112,15 @@ def process(ctx: Ctx, cases: list[dict]) -> None:
     for i, c in enumerate(cases):
         if c["kind"] == "doc":
             c["_xml"] = serialise(c["elem"], c["ns"])
+            if c.get("spelling") == "entity" and c["ns"] == "none":
+                # the same document spelled with an XML declaration, a DOCTYPE whose internal subset declares a general entity,
+                # and that entity / a character reference used in element text (an independent parser sees the expanded text)
+                body = c["_xml"]
+                m = re.search(r">([A-Za-z][A-Za-z0-9 ]*)</", body)
+                if m:
+                    w = m.group(1)
+                    body = body[:m.start(1)] + "&vnd;" + body[m.end(1):]
+                    c["_xml"] = f'<?xml version="1.0"?>\n<!DOCTYPE {c["elem"]["tag"]} [<!ENTITY vnd "{w}">]>\n' + body
             c["_view"] = from_et(ET.fromstring(c["_xml"]))
             reqs.append({"op": "xml_to_dict", "elem": c["_view"], "start": c.get("start", -1)}); idx.append(i)
         elif c["kind"] == "dict":
@@ -255,13 +264,16 @@ def run(ctx: Ctx) -> None:
         cases.append(e["witness"]); ctx.corpus_cases += 1
     cases.append({"kind": "doc", "ns": "prefixed", "elem": {"tag": "r", "attrs": [], "text": None, "children": [{"tag": "a", "attrs": [], "text": "1", "children": []}]}}); ctx.corpus_cases += 1
     cases.append({"kind": "doc", "ns": "none", "elem": {"tag": "r", "attrs": [], "text": None, "children": [{"tag": "b", "attrs": [["id", ""]], "text": "1", "children": []}]}}); ctx.corpus_cases += 1
+    cases.append({"kind": "doc", "ns": "none", "spelling": "entity", "elem": {"tag": "r", "attrs": [], "text": None, "children": [
+        {"tag": "owner", "attrs": [], "text": "DNV", "children": []}, {"tag": "n", "attrs": [], "text": "1", "children": []}]}}); ctx.corpus_cases += 1
     for _ in range(ctx.n(600, 12000)):
         root = gen_elem(rng, rng.choice([1, 2, 3]), tag=rng.choice(["root", "Config", "data"]))
         if not root["children"]:
             root["children"] = [gen_elem(rng, 0)]
         root["text"] = None
         cases.append({"kind": "doc", "ns": rng.choice(["none", "none", "default", "prefixed"]), "elem": root,
-                      **({"start": rng.choice([999999, 999998, 999995, 999990, 999980])} if rng.random() < 0.12 else {})})
+                      **({"start": rng.choice([999999, 999998, 999995, 999990, 999980])} if rng.random() < 0.12 else {}),
+                      **({"spelling": "entity"} if rng.random() < 0.1 else {})})
     for _ in range(ctx.n(300, 5000)):
         cases.append({"kind": "dict", "d": enc(gen_xdict(rng, rng.choice([1, 2, 3])))})
     process(ctx, cases)
